@@ -154,3 +154,25 @@ def h_complete_cb_missing():
         note("exception", type(e).__name__)
     prove(kind != "crash", "X.complete_cb.tolerates-missing-argument")
     prove(commands.RequireCommand.loaded_extensions is loaded, "X.complete_cb.loads-nothing-without-argument")
+
+
+def h_reset_parser_full():
+    """after __reset_parser every per-parse field holds a fresh initial value, whatever the previous parse left behind"""
+    p = sparser.Parser()
+    stale_list = ["stale"]
+    p.result = stale_list
+    p.hash_comments = stale_list
+    p._Parser__cstate = opaque("stale_state")
+    p._Parser__curcommand = opaque("stale_command")
+    p._Parser__curstringlist = stale_list
+    p._Parser__expected = ("stale",)
+    p._Parser__expected_brackets = stale_list
+    commands.RequireCommand.loaded_extensions = stale_list
+    p._Parser__reset_parser()
+    prove(p.result == [] and p.result is not stale_list, "H1.reset.result-fresh")
+    prove(p.hash_comments == [] and p.hash_comments is not stale_list, "H1.reset.hash-comments-fresh")
+    prove(p._Parser__cstate is None and p._Parser__curcommand is None and p._Parser__curstringlist is None
+          and p._Parser__expected is None, "H1.reset.state-cleared")
+    prove(p._Parser__expected_brackets == [] and p._Parser__expected_brackets is not stale_list, "H1.reset.brackets-fresh")
+    le = commands.RequireCommand.loaded_extensions
+    prove(type(le) is list and len(le) == 0 and le is not stale_list, "H1.reset.registry-fresh-empty")
